@@ -124,6 +124,10 @@ def run_kani(crate, harnesses, tier, opts, extra_env=None, tdir_suffix="", playb
         cmd += ["--features", f]
     if opts.get("stubbing"):
         cmd += ["-Z", "stubbing"]
+    if opts.get("restrict_vtable"):
+        # dyn calls are resolved among the implementations of the trait method only (without it
+        # CBMC tries every address-taken function with a compatible signature)
+        cmd += ["-Z", "restrict-vtable"]
     if playback:
         cmd += ["-Z", "concrete-playback", "--concrete-playback=print"]
     else:
@@ -277,6 +281,8 @@ def main():
             cmd = ["cargo", "kani", "--target-dir", tdir, "--only-codegen", "--exact", "--harness", qual[names[0]]]
             if opts.get("stubbing"):
                 cmd += ["-Z", "stubbing"]
+            if opts.get("restrict_vtable"):
+                cmd += ["-Z", "restrict-vtable"]
             rc, out, w = sh(cmd, cwd=crate_dir, timeout=1500)
             print("warm %s: rc=%s %.0fs" % (crate, rc, w))
             ndir = os.path.join(crate_dir, "native")
